@@ -337,3 +337,31 @@ func verifLemmaSequencerConsecutive(s *sequencer) (uint16, uint16) {
 
 	return a, b
 }
+
+// ===== C20: Clone =====
+//
+// cloneOfExt(c, h, k): element k of the clone's extension list has the same id
+// and a freshly allocated value of the same length (its bytes: the *_bytes clauses).
+//@ pure bool cloneOfExt(c, h, k) = c[k].id == h[k].id && len(c[k].payload) == len(h[k].payload) && (h[k].payload == nil ==> c[k].payload == nil) && (h[k].payload != nil ==> c[k].payload != nil && fresh(c[k].payload))
+
+//@ spec (Header).Clone
+//@   ensures scalars [C20]: samescalars(result0, h)
+//@   ensures csrc [C20]: len(result0.CSRC) == len(h.CSRC) && (h.CSRC == nil ==> result0.CSRC == nil) && (h.CSRC != nil ==> result0.CSRC != nil && fresh(result0.CSRC)) && eqseq(result0.CSRC, 0, h.CSRC, 0, len(h.CSRC))
+//@   ensures exts [C20]: len(result0.Extensions) == len(h.Extensions) && (h.Extensions == nil ==> result0.Extensions == nil) && (h.Extensions != nil ==> result0.Extensions != nil && fresh(result0.Extensions))
+//@   ensures ext_elems [C20]: forall k :: 0 <= k && k < len(h.Extensions) ==> cloneOfExt(result0.Extensions, h.Extensions, k)
+//@   ensures ext_bytes [C20]: forall k, q :: 0 <= k && k < len(h.Extensions) && 0 <= q && q < len(h.Extensions[k].payload) ==> result0.Extensions[k].payload[q] == h.Extensions[k].payload[q]
+//@   loop 0: invariant shape [C20]: ext != nil && fresh(ext) && off(ext) == 0 && len(ext) == len(h.Extensions) && rangeindex <= len(h.Extensions) - 1
+//@   loop 0: invariant done [C20]: forall k :: 0 <= k && k <= rangeindex ==> cloneOfExt(ext, h.Extensions, k)
+//@   loop 0: invariant done_bytes [C20]: forall k, q :: 0 <= k && k <= rangeindex && 0 <= q && q < len(h.Extensions[k].payload) ==> ext[k].payload[q] == h.Extensions[k].payload[q]
+//@   loop 0: invariant clone_csrc [C20]: len(clone.CSRC) == len(h.CSRC) && (h.CSRC == nil ==> clone.CSRC == nil) && (h.CSRC != nil ==> clone.CSRC != nil && fresh(clone.CSRC)) && eqseq(clone.CSRC, 0, h.CSRC, 0, len(h.CSRC)) && samescalars(clone, h)
+//@ end
+
+//@ spec (Packet).Clone
+//@   ensures nonnil [C20]: result0 != nil && fresh(result0)
+//@   ensures scalars [C20]: samescalars(result0.Header, p.Header) && result0.PaddingSize == p.PaddingSize
+//@   ensures csrc [C20]: len(result0.Header.CSRC) == len(p.Header.CSRC) && (p.Header.CSRC != nil ==> fresh(result0.Header.CSRC)) && eqseq(result0.Header.CSRC, 0, p.Header.CSRC, 0, len(p.Header.CSRC))
+//@   ensures exts [C20]: len(result0.Header.Extensions) == len(p.Header.Extensions) && (p.Header.Extensions != nil ==> fresh(result0.Header.Extensions))
+//@   ensures ext_elems [C20]: forall k :: 0 <= k && k < len(p.Header.Extensions) ==> cloneOfExt(result0.Header.Extensions, p.Header.Extensions, k)
+//@   ensures ext_bytes [C20]: forall k, q :: 0 <= k && k < len(p.Header.Extensions) && 0 <= q && q < len(p.Header.Extensions[k].payload) ==> result0.Header.Extensions[k].payload[q] == p.Header.Extensions[k].payload[q]
+//@   ensures payload [C20]: len(result0.Payload) == len(p.Payload) && (p.Payload == nil ==> result0.Payload == nil) && (p.Payload != nil ==> result0.Payload != nil && fresh(result0.Payload)) && eqseq(result0.Payload, 0, p.Payload, 0, len(p.Payload))
+//@ end
